@@ -60,6 +60,10 @@ struct Rng {
   const T& pick(const std::vector<T>& v) {
     return v[below(v.size())];
   }
+  template <class T, size_t N>
+  const T& pick(T (&arr)[N]) {
+    return arr[below(N)];
+  }
   template <class T>
   T pick(std::initializer_list<T> v) {
     return *(v.begin() + below(v.size()));
